@@ -9,6 +9,7 @@ model's checked `move_new` from the standard position, with no promotion piece.
 import ChessVerif.Props.C17.Basic
 import ChessVerif.Proofs.BookWalk.All
 import ChessVerif.Proofs.BookLines
+import ChessVerif.Proofs.CliBook
 
 namespace Chess.Props.C17
 open Chess Chess.Book
@@ -49,6 +50,23 @@ theorem every_line_no_promotion (ms : List Move) (hp : Book.Path Book.root ms) :
 /-- … and has at most `BOOK_SIZE / 2` moves: paths are finite, the walk cannot loop -/
 theorem every_line_bounded (ms : List Move) (hp : Book.Path Book.root ms) : 2 * ms.length ≤ Book.root :=
   Book.path_length Book.root ms hp
+
+/-! ### the consumer: the book phase of the command line (`Model/Cli.lean`) -/
+
+/-- whatever indices the random sampler draws, `assert!(board.move_mut(..))` never fails in the book phase -/
+theorem cli_book_phase_never_asserts (fuel : Nat) (draws : List Nat) :
+    Cli.bookPhase fuel Book.root Board.standard draws ≠ .error .assertMoveMut :=
+  Cli.cli_book_phase_never_asserts fuel draws
+
+/-- … and `nth(x).unwrap()` can only fail for a draw outside `0..count`, which a sampler over `count` weights never makes -/
+theorem cli_book_phase_unwrap (fuel : Nat) (draws : List Nat)
+    (h : Cli.bookPhase fuel Book.root Board.standard draws = .error .nthUnwrap) :
+    ∃ (i : Nat) (x : Nat), x ∈ draws ∧ (Cli.siblings (i + 1) i).length ≤ x :=
+  Cli.bookPhase_unwrap fuel Book.root Board.standard draws h
+
+/-- non-vacuity: drawing index 0 plays 1. e2-e4 and hands the move to Black -/
+example : (match Cli.bookPhase 3 Book.root Board.standard [0] with
+    | .ok b => b.turn == .black && (b.raw.get 28).isSome | .error _ => false) = true := by decide +kernel
 
 /-- non-vacuity: 1. e2-e4 is a path of the book (the first move the root iterator yields) -/
 example : Book.Path Book.root [⟨12, 28, none⟩] := by
